@@ -37,3 +37,43 @@ Definition fstep (s : fst_) (o : fop) : fst_ :=
 
 Definition frun (s : fst_) (ops : list fop) : fst_ := fold_left fstep ops s.
 Definition finit : fst_ := {| unsynced := fun _ => false; dirty := fun _ => false; flag := false |}.
+
+(* Content-carrying refinement of the same model (C02): `mem k` is what the running device reads for slice k (its
+   cache where cached, else the file), `file k` is what a freshly opened device reads.  Eviction drops the cached
+   copy, so after a successful eviction write-back `mem` is unchanged because the file now holds the value; a failed
+   write-back keeps the slice cached and dirty. *)
+Record cst := { mem : N -> N; file : N -> N; cdirty : N -> bool; cflag : bool }.
+
+Definition setn (f : N -> N) (k v : N) : N -> N := fun x => if x =? k then v else f x.
+
+Inductive cop :=
+| CUpdate (k v : N)
+| CFlushOk
+| CFlushFail (written : list N)
+| CEvictOk (k : N)
+| CEvictFail (k : N).
+
+Definition cstep (s : cst) (o : cop) : cst :=
+  match o with
+  | CUpdate k v => {| mem := setn (mem s) k v; file := file s; cdirty := setb (cdirty s) k true; cflag := true |}
+  | CFlushOk => {| mem := mem s; file := fun k => if cdirty s k then mem s k else file s k;
+                   cdirty := fun _ => false; cflag := false |}
+  | CFlushFail w =>
+      {| mem := mem s; file := fun k => if cdirty s k && existsb (N.eqb k) w then mem s k else file s k;
+         cdirty := fun k => if existsb (N.eqb k) w then false else cdirty s k; cflag := true |}
+  | CEvictOk k =>
+      {| mem := mem s; file := if cdirty s k then setn (file s) k (mem s k) else file s;
+         cdirty := setb (cdirty s) k false; cflag := cflag s |}
+  | CEvictFail k => {| mem := mem s; file := file s; cdirty := cdirty s; cflag := if cdirty s k then true else cflag s |}
+  end.
+
+Definition crun_ (s : cst) (ops : list cop) : cst := fold_left cstep ops s.
+Definition cinit (f : N -> N) : cst := {| mem := f; file := f; cdirty := fun _ => false; cflag := false |}.
+
+(* the flat reference for `mem`: the initial content overlaid with the updates in order *)
+Fixpoint cref (f : N -> N) (ops : list cop) : N -> N :=
+  match ops with
+  | [] => f
+  | CUpdate k v :: r => cref (setn f k v) r
+  | _ :: r => cref f r
+  end.
